@@ -105,9 +105,38 @@ def rank3_tensors(env, nsteps):
     return out
 
 
+def apply_gauge(rng, tens, caps=None):
+    """A PT-MPO is defined up to an invertible matrix per bond (a scalar on a
+    bond of dimension 1): tens[k-1] -> tens[k-1] G_k, tens[k] -> G_k^-1
+    tens[k], cap_k -> G_k^-1 cap_k. Every contraction is unchanged. Returns
+    new lists."""
+    tens = [np.array(t, dtype=complex) for t in tens]
+    caps = None if caps is None else [np.array(c, dtype=complex)
+                                      for c in caps]
+    n = len(tens)
+    for k in range(1, n + 1):      # bond 0 is the open left end
+        dim = tens[k].shape[0] if k < n else tens[n - 1].shape[1]
+        if k == n and caps is None and dim == 1:
+            # the library's compute_caps() closes the last bond with 1.0
+            continue
+        if k == n and caps is None:
+            continue
+        g = gen.cplx(rng, (dim, dim), 0.4) + np.eye(dim) * \
+            (1.5 if rng.random() < 0.5 else 0.4)
+        ginv = np.linalg.inv(g)
+        if k >= 1:
+            tens[k - 1] = np.moveaxis(
+                np.tensordot(tens[k - 1], g, axes=([1], [0])), -1, 1)
+        if k < n:
+            tens[k] = np.tensordot(ginv, tens[k], axes=([1], [0]))
+        if caps is not None:
+            caps[k] = ginv @ caps[k]
+    return tens, caps
+
+
 def build_process_tensor(env, nsteps, dt=None, rank3=False, transform=None,
                          caps="explicit", name=None, description=None,
-                         feed="copy"):
+                         feed="copy", gauge=None):
     """SimpleProcessTensor for the environment. transform=(tin, tout) stores
     the tensors in a rotated basis such that the transformed tensors are the
     original ones."""
@@ -131,6 +160,9 @@ def build_process_tensor(env, nsteps, dt=None, rank3=False, transform=None,
                     for t in tens]
         # rank-3 tensors are stored as they are: the caller supplies
         # transforms such that tin . delta(T') . tout is the lab-frame tensor
+    cap_list = env.caps(nsteps)
+    if gauge is not None:
+        tens, cap_list = apply_gauge(gauge, tens, cap_list)
     pt = oqupy.SimpleProcessTensor(d, dt=dt, name=name,
                                    description=description, **kw)
     # how the caller hands the tensors over: fresh arrays, Fortran-ordered
@@ -149,7 +181,7 @@ def build_process_tensor(env, nsteps, dt=None, rank3=False, transform=None,
     for b in buf.values():
         b[...] = 9.9
     if caps == "explicit":
-        for k, c in enumerate(env.caps(nsteps)):
+        for k, c in enumerate(cap_list):
             pt.set_cap_tensor(k, c)
     elif caps == "compute":
         pt.compute_caps()
